@@ -205,7 +205,7 @@ def _worker(task):
                     st["violations"].append({"unit": unit.name, "cfg": cfg, "clause": name, "failures": failures,
                                              "snapshot": jsonable(snap), "outcome": jsonable(cout), "class": cls,
                                              "reproduces_in_native_float_arithmetic": native})
-            elif unit.witness and witness_every and (counter[0] + seed) % witness_every == 0:
+            elif unit.witness and witness_every and (counter[0] <= 3 or (counter[0] + seed) % witness_every == 0):
                 try:
                     set_active(E)
                     snap = E.snapshot()
